@@ -78,8 +78,8 @@ structure Cmp where
 deriving Inhabited
 
 /-- `|impl − model| ≤ tol · max(|impl|,|model|)` entrywise, `tol = 0` for the exact mode -/
-def cmpArr (tol : Fix) (impl model : Array (Array Fix)) : Cmp := Id.run do
-  let scale := fmax (maxAbsArr impl) (maxAbsArr model)
+def cmpArr (tol : Fix) (impl model : Array (Array Fix)) (minScale : Fix := 0) : Cmp := Id.run do
+  let scale := fmax (fmax (maxAbsArr impl) (maxAbsArr model)) minScale
   let bound := tol * scale
   let mut worst : Fix := 0
   let mut pos := (0, 0)
